@@ -120,8 +120,10 @@ func (er *entryReaderImpl) initDags() error {
 	}
 
 	var fileNames []string
+	present := map[string]bool{}
 	for _, fi := range fis {
 		if util.MatchExtension(fi.Name(), dag.Exts) {
+			present[fi.Name()] = true
 			workflow, err := dag.LoadMetadata(
 				filepath.Join(er.dagsDir, fi.Name()),
 			)
@@ -135,6 +137,13 @@ func (er *entryReaderImpl) initDags() error {
 			}
 			er.dags[fi.Name()] = workflow
 			fileNames = append(fileNames, fi.Name())
+		}
+	}
+
+	// (when the directory is read again: what is gone from it is dropped)
+	for name := range er.dags {
+		if !present[name] {
+			delete(er.dags, name)
 		}
 	}
 
@@ -153,6 +162,13 @@ func (er *entryReaderImpl) watchDags(done chan any) {
 		_ = watcher.Close()
 	}()
 	_ = watcher.Add(er.dagsDir)
+
+	// The directory was read when the reader was created. Whatever changed
+	// in it between then and now - the rest of the daemon's start-up - was
+	// reported to nobody: read it once more now that changes are reported.
+	if err := er.initDags(); err != nil {
+		er.logger.Error("DAG initialization failed", "error", err)
+	}
 
 	for {
 		select {
